@@ -582,23 +582,26 @@ theorem query_response_is_code (E : Mimic.Py.Env S) (coldef : Nat → Nat → Mi
 theorem command_step_is_code (E : Mimic.Py.Env S) (cp : S → Nat) (pc : Nat → Mimic.Py.Bytes) (coldef : Nat → Nat → Mimic.Py.Bytes)
     (parse : Connection S → Mimic.Py.Bytes → Option (ComStmtExecute S)) (app : S → Option (ResultSet S))
     (ur : S → Bool) (fls : Mimic.Extracted.ParsersCode.ComFieldList S → S) (fcd : Nat → S → Mimic.Py.Bytes → Mimic.Py.Bytes)
-    (other : Nat → Connection S → Mimic.Py.Bytes → Except (Connection S) (Connection S)) (err : Connection S → Mimic.Py.Bytes)
+    (other : Nat → Connection S → Mimic.Py.Bytes → Except (Connection S) (Connection S)) (err : Connection S → Mimic.Py.Bytes) (af : Nat → Connection S → Mimic.Py.Bytes → Option (Connection S))
     (c : Connection S) (data : Mimic.Py.Bytes) :
     let c1 : Connection S := { c with _executing := true }
+    match authEnded af c data with
+    | some s => command_step E cp pc coldef parse app ur fls fcd other err af c data = ({ s with _executing := false, out := s.out ++ [Ev.reset_seq] }, false)
+    | none =>
     match data with
     | [] =>
-      command_step E cp pc coldef parse app ur fls fcd other err c data
+      command_step E cp pc coldef parse app ur fls fcd other err af c data
         = ({ c with _executing := false, out := c.out ++ [Ev.write (err { c with _executing := false }) true, Ev.reset_seq] }, true)
     | command :: rest =>
       match dispatch E cp pc coldef parse app ur fls fcd other c1 command.toNat rest with
       | .ok (some s) =>
-        command_step E cp pc coldef parse app ur fls fcd other err c data = ({ s with _executing := false, out := s.out ++ [Ev.reset_seq] }, true)
+        command_step E cp pc coldef parse app ur fls fcd other err af c data = ({ s with _executing := false, out := s.out ++ [Ev.reset_seq] }, true)
       | .ok none =>
-        command_step E cp pc coldef parse app ur fls fcd other err c data = ({ c with _executing := false, out := c.out ++ [Ev.reset_seq] }, false)
+        command_step E cp pc coldef parse app ur fls fcd other err af c data = ({ c with _executing := false, out := c.out ++ [Ev.reset_seq] }, false)
       | .error s =>
-        command_step E cp pc coldef parse app ur fls fcd other err c data
+        command_step E cp pc coldef parse app ur fls fcd other err af c data
           = ({ s with _executing := false, out := s.out ++ [Ev.write (err { s with _executing := false }) true, Ev.reset_seq] }, true) :=
-  command_step_spec E cp pc coldef parse app ur fls fcd other err c data
+  command_step_spec E cp pc coldef parse app ur fls fcd other err af c data
 
 /-- the command loop ends only on COM_QUIT; an unsupported command byte raises (one ERR, the connection goes on) -/
 theorem dispatch_quit_and_unsupported (E : Mimic.Py.Env S) (cp : S → Nat) (pc : Nat → Mimic.Py.Bytes) (coldef : Nat → Nat → Mimic.Py.Bytes)
@@ -616,43 +619,47 @@ theorem dispatch_quit_and_unsupported (E : Mimic.Py.Env S) (cp : S → Nat) (pc 
 theorem code_query_exchange (E : Mimic.Py.Env S) (cp : S → Nat) (pc : Nat → Mimic.Py.Bytes) (coldef : Nat → Nat → Mimic.Py.Bytes)
     (parse : Connection S → Mimic.Py.Bytes → Option (ComStmtExecute S)) (app : S → Option (ResultSet S))
     (ur : S → Bool) (fls : Mimic.Extracted.ParsersCode.ComFieldList S → S) (fcd : Nat → S → Mimic.Py.Bytes → Mimic.Py.Bytes)
-    (other : Nat → Connection S → Mimic.Py.Bytes → Except (Connection S) (Connection S)) (err : Connection S → Mimic.Py.Bytes)
+    (other : Nat → Connection S → Mimic.Py.Bytes → Except (Connection S) (Connection S)) (err : Connection S → Mimic.Py.Bytes) (af : Nat → Connection S → Mimic.Py.Bytes → Option (Connection S))
     (c : Connection S) (payload : Mimic.Py.Bytes) (q : Mimic.Extracted.ParsersCode.ComQuery S) (rs : ResultSet S)
     (hp : Mimic.Extracted.ParsersCode.parse_com_query E c.capabilities c.client_charset payload = some q) (ha : app q.sql = some rs)
     (hne : rs.columns.isEmpty = false) :
     ∃ (w f l w2 fl : Nat),
       let pre := if deprecate_eof c then [] else [Ev.write (eof c w f) false]
       let sent := c.out ++ queryMeta coldef c rs ++ pre ++ rs.rows.rows.map (fun p => Ev.write p false)
-      (command_step E cp pc coldef parse app ur fls fcd other err c (3 :: payload)).2 = true ∧
-      ∃ e : Mimic.Py.Bytes, (command_step E cp pc coldef parse app ur fls fcd other err c (3 :: payload)).1.out
+      (command_step E cp pc coldef parse app ur fls fcd other err af c (3 :: payload)).2 = true ∧
+      ∃ e : Mimic.Py.Bytes, (command_step E cp pc coldef parse app ur fls fcd other err af c (3 :: payload)).1.out
         = if rs.rows.boom then sent ++ [Ev.write e true, Ev.reset_seq]
           else sent ++ [Ev.write (ok_or_eof c rs.rows.rows.length l w2 fl) false, Ev.drain, Ev.reset_seq] :=
-  query_command_response E cp pc coldef parse app ur fls fcd other err c payload q rs hp ha hne
+  query_command_response E cp pc coldef parse app ur fls fcd other err af c payload q rs hp ha hne
 
 /-! ### the command loop itself (`command_loop`: the `while True` of `command_phase`, generated), for every conversation -/
 
 open MimicProofs.CommandLoop in
-/-- **The command phase ends by COM_QUIT iff the client sent one.**  For every list of packets — of any length, malformed,
-    empty and unsupported ones included — and every behaviour of parsers, application and untranslated handlers: the loop
-    returns because of a packet iff some packet's first byte is 1; no failure, no ERR and no other command ends it ("and then
-    waits for the next command"). -/
+/-- **The command phase is ended only by a COM_QUIT — always — or by a COM_CHANGE_USER whose authentication fails.**  For every
+    list of packets (of any length; malformed, empty and unsupported ones included) and every behaviour of parsers, application
+    and the untranslated handler: if the loop returned because of a packet, some packet starts with byte 1 or 17; a packet
+    starting with byte 1 always ends it; and when no COM_CHANGE_USER fails (`af 17` never says so — in particular when none is
+    sent) the loop ends iff a COM_QUIT was sent.  No failure, no ERR and no other command ends it ("and then waits for the next
+    command"). -/
 theorem code_loop_ends_only_by_quit (E : Mimic.Py.Env S) (cp : S → Nat) (pc : Nat → Mimic.Py.Bytes) (coldef : Nat → Nat → Mimic.Py.Bytes)
     (parse : Connection S → Mimic.Py.Bytes → Option (ComStmtExecute S)) (app : S → Option (ResultSet S))
     (ur : S → Bool) (fls : Mimic.Extracted.ParsersCode.ComFieldList S → S) (fcd : Nat → S → Mimic.Py.Bytes → Mimic.Py.Bytes)
-    (other : Nat → Connection S → Mimic.Py.Bytes → Except (Connection S) (Connection S)) (err : Connection S → Mimic.Py.Bytes)
+    (other : Nat → Connection S → Mimic.Py.Bytes → Except (Connection S) (Connection S)) (err : Connection S → Mimic.Py.Bytes) (af : Nat → Connection S → Mimic.Py.Bytes → Option (Connection S))
     (c : Connection S) (ps : List Mimic.Py.Bytes) :
-    (command_loop E cp pc coldef parse app ur fls fcd other err c ps).2 = true ↔ ∃ p ∈ ps, isQuit p = true :=
-  loop_quit_iff E cp pc coldef parse app ur fls fcd other err c ps
+    ((command_loop E cp pc coldef parse app ur fls fcd other err af c ps).2 = true → ∃ p ∈ ps, isQuit p = true ∨ isChangeUser p = true) ∧
+    ((∃ p ∈ ps, isQuit p = true) → (command_loop E cp pc coldef parse app ur fls fcd other err af c ps).2 = true) ∧
+    ((∀ c d, af 17 c d = none) → ((command_loop E cp pc coldef parse app ur fls fcd other err af c ps).2 = true ↔ ∃ p ∈ ps, isQuit p = true)) :=
+  ⟨loop_ends_only E cp pc coldef parse app ur fls fcd other err af c ps, loop_quit_ends E cp pc coldef parse app ur fls fcd other err af c ps, fun hno => loop_quit_iff E cp pc coldef parse app ur fls fcd other err af hno c ps⟩
 
 open MimicProofs.CommandLoop in
 /-- **nothing behind a COM_QUIT is looked at**: packets pipelined after it change neither the state nor the wire -/
 theorem code_loop_ignores_after_quit (E : Mimic.Py.Env S) (cp : S → Nat) (pc : Nat → Mimic.Py.Bytes) (coldef : Nat → Nat → Mimic.Py.Bytes)
     (parse : Connection S → Mimic.Py.Bytes → Option (ComStmtExecute S)) (app : S → Option (ResultSet S))
     (ur : S → Bool) (fls : Mimic.Extracted.ParsersCode.ComFieldList S → S) (fcd : Nat → S → Mimic.Py.Bytes → Mimic.Py.Bytes)
-    (other : Nat → Connection S → Mimic.Py.Bytes → Except (Connection S) (Connection S)) (err : Connection S → Mimic.Py.Bytes)
+    (other : Nat → Connection S → Mimic.Py.Bytes → Except (Connection S) (Connection S)) (err : Connection S → Mimic.Py.Bytes) (af : Nat → Connection S → Mimic.Py.Bytes → Option (Connection S))
     (c : Connection S) (pre post : List Mimic.Py.Bytes) (q : Mimic.Py.Bytes) (hq : isQuit q = true) :
-    command_loop E cp pc coldef parse app ur fls fcd other err c (pre ++ q :: post) = command_loop E cp pc coldef parse app ur fls fcd other err c (pre ++ [q]) :=
-  loop_ignores_after_quit E cp pc coldef parse app ur fls fcd other err c pre post q hq
+    command_loop E cp pc coldef parse app ur fls fcd other err af c (pre ++ q :: post) = command_loop E cp pc coldef parse app ur fls fcd other err af c (pre ++ [q]) :=
+  loop_ignores_after_quit E cp pc coldef parse app ur fls fcd other err af c pre post q hq
 
 open MimicProofs.CommandLoop in
 /-- **after every command the sequence is reset and the executing flag cleared** — after one iteration on any packet, and
@@ -661,13 +668,13 @@ open MimicProofs.CommandLoop in
 theorem code_every_command_resets_sequence (E : Mimic.Py.Env S) (cp : S → Nat) (pc : Nat → Mimic.Py.Bytes) (coldef : Nat → Nat → Mimic.Py.Bytes)
     (parse : Connection S → Mimic.Py.Bytes → Option (ComStmtExecute S)) (app : S → Option (ResultSet S))
     (ur : S → Bool) (fls : Mimic.Extracted.ParsersCode.ComFieldList S → S) (fcd : Nat → S → Mimic.Py.Bytes → Mimic.Py.Bytes)
-    (other : Nat → Connection S → Mimic.Py.Bytes → Except (Connection S) (Connection S)) (err : Connection S → Mimic.Py.Bytes)
+    (other : Nat → Connection S → Mimic.Py.Bytes → Except (Connection S) (Connection S)) (err : Connection S → Mimic.Py.Bytes) (af : Nat → Connection S → Mimic.Py.Bytes → Option (Connection S))
     (c : Connection S) :
-    (∀ data : Mimic.Py.Bytes, (command_step E cp pc coldef parse app ur fls fcd other err c data).1._executing = false ∧
-        ∃ pre, (command_step E cp pc coldef parse app ur fls fcd other err c data).1.out = pre ++ [Ev.reset_seq]) ∧
-    (∀ ps : List Mimic.Py.Bytes, ps ≠ [] → (command_loop E cp pc coldef parse app ur fls fcd other err c ps).1._executing = false ∧
-        ∃ pre, (command_loop E cp pc coldef parse app ur fls fcd other err c ps).1.out = pre ++ [Ev.reset_seq]) :=
-  ⟨fun data => step_clears_and_resets E cp pc coldef parse app ur fls fcd other err c data, fun ps h => loop_clears_and_resets E cp pc coldef parse app ur fls fcd other err c ps h⟩
+    (∀ data : Mimic.Py.Bytes, (command_step E cp pc coldef parse app ur fls fcd other err af c data).1._executing = false ∧
+        ∃ pre, (command_step E cp pc coldef parse app ur fls fcd other err af c data).1.out = pre ++ [Ev.reset_seq]) ∧
+    (∀ ps : List Mimic.Py.Bytes, ps ≠ [] → (command_loop E cp pc coldef parse app ur fls fcd other err af c ps).1._executing = false ∧
+        ∃ pre, (command_loop E cp pc coldef parse app ur fls fcd other err af c ps).1.out = pre ++ [Ev.reset_seq]) :=
+  ⟨fun data => step_clears_and_resets E cp pc coldef parse app ur fls fcd other err af c data, fun ps h => loop_clears_and_resets E cp pc coldef parse app ur fls fcd other err af c ps h⟩
 
 open MimicProofs.CommandLoop in
 /-- **conversations compose**: serving `ps ++ qs` is serving `ps` and then — unless `ps` contained a COM_QUIT — serving `qs`
@@ -675,27 +682,27 @@ open MimicProofs.CommandLoop in
 theorem code_loop_composes (E : Mimic.Py.Env S) (cp : S → Nat) (pc : Nat → Mimic.Py.Bytes) (coldef : Nat → Nat → Mimic.Py.Bytes)
     (parse : Connection S → Mimic.Py.Bytes → Option (ComStmtExecute S)) (app : S → Option (ResultSet S))
     (ur : S → Bool) (fls : Mimic.Extracted.ParsersCode.ComFieldList S → S) (fcd : Nat → S → Mimic.Py.Bytes → Mimic.Py.Bytes)
-    (other : Nat → Connection S → Mimic.Py.Bytes → Except (Connection S) (Connection S)) (err : Connection S → Mimic.Py.Bytes)
+    (other : Nat → Connection S → Mimic.Py.Bytes → Except (Connection S) (Connection S)) (err : Connection S → Mimic.Py.Bytes) (af : Nat → Connection S → Mimic.Py.Bytes → Option (Connection S))
     (c : Connection S) (ps qs : List Mimic.Py.Bytes) :
-    command_loop E cp pc coldef parse app ur fls fcd other err c (ps ++ qs)
-      = if (command_loop E cp pc coldef parse app ur fls fcd other err c ps).2 then command_loop E cp pc coldef parse app ur fls fcd other err c ps
-        else command_loop E cp pc coldef parse app ur fls fcd other err (command_loop E cp pc coldef parse app ur fls fcd other err c ps).1 qs :=
-  loop_append E cp pc coldef parse app ur fls fcd other err c ps qs
+    command_loop E cp pc coldef parse app ur fls fcd other err af c (ps ++ qs)
+      = if (command_loop E cp pc coldef parse app ur fls fcd other err af c ps).2 then command_loop E cp pc coldef parse app ur fls fcd other err af c ps
+        else command_loop E cp pc coldef parse app ur fls fcd other err af (command_loop E cp pc coldef parse app ur fls fcd other err af c ps).1 qs :=
+  loop_append E cp pc coldef parse app ur fls fcd other err af c ps qs
 
 open MimicProofs.Monotone in
 /-- **Nothing once written is ever retracted or reordered by a later command.**  For every conversation `ps ++ qs`: what has been
     put on the wire (and every drain, reset and `use` call) after serving `ps` is a prefix of what is there after serving
     `ps ++ qs`; and one iteration on any packet only extends what was there.  Holds for every behaviour of parsers, application
     and row sources, whether handlers return or raise; the one untranslated handler (`handle_change_user`, the parameter
-    `other`) is assumed to extend the effects too (`hother`) — the thirteen translated ones are proved to. -/
+    `other`) is assumed to extend the effects too, whether it returns, raises or raises `AuthenticationFailed` (`hother`, `haf`) — the thirteen translated ones are proved to. -/
 theorem code_nothing_written_is_retracted (E : Mimic.Py.Env S) (cp : S → Nat) (pc : Nat → Mimic.Py.Bytes) (coldef : Nat → Nat → Mimic.Py.Bytes)
     (parse : Connection S → Mimic.Py.Bytes → Option (ComStmtExecute S)) (app : S → Option (ResultSet S))
     (ur : S → Bool) (fls : Mimic.Extracted.ParsersCode.ComFieldList S → S) (fcd : Nat → S → Mimic.Py.Bytes → Mimic.Py.Bytes)
-    (other : Nat → Connection S → Mimic.Py.Bytes → Except (Connection S) (Connection S)) (err : Connection S → Mimic.Py.Bytes)
-    (hother : ∀ k c d, Ext c (other k c d)) (c : Connection S) (ps qs : List Mimic.Py.Bytes) :
-    (command_loop E cp pc coldef parse app ur fls fcd other err c ps).1.out <+: (command_loop E cp pc coldef parse app ur fls fcd other err c (ps ++ qs)).1.out ∧
-    ∀ data : Mimic.Py.Bytes, c.out <+: (command_step E cp pc coldef parse app ur fls fcd other err c data).1.out :=
-  ⟨loop_prefix E cp pc coldef parse app ur fls fcd other err hother c ps qs, fun data => step_ext E cp pc coldef parse app ur fls fcd other err hother c data⟩
+    (other : Nat → Connection S → Mimic.Py.Bytes → Except (Connection S) (Connection S)) (err : Connection S → Mimic.Py.Bytes) (af : Nat → Connection S → Mimic.Py.Bytes → Option (Connection S))
+    (hother : ∀ k c d, Ext c (other k c d)) (haf : ∀ k c d s, af k c d = some s → c.out <+: s.out) (c : Connection S) (ps qs : List Mimic.Py.Bytes) :
+    (command_loop E cp pc coldef parse app ur fls fcd other err af c ps).1.out <+: (command_loop E cp pc coldef parse app ur fls fcd other err af c (ps ++ qs)).1.out ∧
+    ∀ data : Mimic.Py.Bytes, c.out <+: (command_step E cp pc coldef parse app ur fls fcd other err af c data).1.out :=
+  ⟨loop_prefix E cp pc coldef parse app ur fls fcd other err af hother haf c ps qs, fun data => step_ext E cp pc coldef parse app ur fls fcd other err af hother haf c data⟩
 
 /-- non-vacuity of `hother`: a handler that writes one packet and returns, and one that raises at once -/
 example (c : Connection S) (p : Mimic.Py.Bytes) :
@@ -706,16 +713,16 @@ open MimicProofs.Frame in
 /-- **A whole conversation is answered under the capabilities negotiated in the handshake.**  No command of any conversation
     changes the connection's `capabilities` or `status_flags` — the two values every response shape depends on — so in particular
     the terminator convention (EOF packets or OK-as-EOF) is the same for the first and the last response.  The thirteen translated
-    handlers are proved to keep them; the untranslated `handle_change_user` is assumed to (`hother`). -/
+    handlers are proved to keep them; the untranslated `handle_change_user` is assumed to (`hother`, `haf`). -/
 theorem code_capabilities_constant (E : Mimic.Py.Env S) (cp : S → Nat) (pc : Nat → Mimic.Py.Bytes) (coldef : Nat → Nat → Mimic.Py.Bytes)
     (parse : Connection S → Mimic.Py.Bytes → Option (ComStmtExecute S)) (app : S → Option (ResultSet S))
     (ur : S → Bool) (fls : Mimic.Extracted.ParsersCode.ComFieldList S → S) (fcd : Nat → S → Mimic.Py.Bytes → Mimic.Py.Bytes)
-    (other : Nat → Connection S → Mimic.Py.Bytes → Except (Connection S) (Connection S)) (err : Connection S → Mimic.Py.Bytes)
-    (hother : ∀ k c d, Keeps c (other k c d)) (c : Connection S) (ps : List Mimic.Py.Bytes) :
-    (command_loop E cp pc coldef parse app ur fls fcd other err c ps).1.capabilities = c.capabilities ∧
-    (command_loop E cp pc coldef parse app ur fls fcd other err c ps).1.status_flags = c.status_flags ∧
-    deprecate_eof (command_loop E cp pc coldef parse app ur fls fcd other err c ps).1 = deprecate_eof c :=
-  ⟨(loop_keeps E cp pc coldef parse app ur fls fcd other err hother c ps).1, (loop_keeps E cp pc coldef parse app ur fls fcd other err hother c ps).2, loop_deprecate_eof E cp pc coldef parse app ur fls fcd other err hother c ps⟩
+    (other : Nat → Connection S → Mimic.Py.Bytes → Except (Connection S) (Connection S)) (err : Connection S → Mimic.Py.Bytes) (af : Nat → Connection S → Mimic.Py.Bytes → Option (Connection S))
+    (hother : ∀ k c d, Keeps c (other k c d)) (haf : ∀ k c d s, af k c d = some s → Same c s) (c : Connection S) (ps : List Mimic.Py.Bytes) :
+    (command_loop E cp pc coldef parse app ur fls fcd other err af c ps).1.capabilities = c.capabilities ∧
+    (command_loop E cp pc coldef parse app ur fls fcd other err af c ps).1.status_flags = c.status_flags ∧
+    deprecate_eof (command_loop E cp pc coldef parse app ur fls fcd other err af c ps).1 = deprecate_eof c :=
+  ⟨(loop_keeps E cp pc coldef parse app ur fls fcd other err af hother haf c ps).1, (loop_keeps E cp pc coldef parse app ur fls fcd other err af hother haf c ps).2, loop_deprecate_eof E cp pc coldef parse app ur fls fcd other err af hother haf c ps⟩
 
 /-- non-vacuity: a conversation of an empty packet, an unsupported byte and a COM_QUIT followed by a pipelined ping -/
 example : MimicProofs.CommandLoop.served [[], [0x63], [1], [14]] = [[], [0x63], [1]] := by decide
